@@ -52,6 +52,7 @@ def showEv : Ev → String
   | .actEnd => " }"
   | .bound _ id _ _ _ => s!" ={id}"
   | .unbindReq _ => ""
+  | .fire _ _ => ""
   | .occBegin _ _ _ => ""
   | .occEnd _ => ""
 
